@@ -32,6 +32,9 @@ type Config struct {
 	AmpPercent int   // Compactor.MaxSizeAmplificationPercent
 	SmallLevel int64 // Compactor.SmallestLevelSize
 	RankSeed   uint32
+	// ParkAtCreate: a held flush or compaction parks where it creates its table
+	// file, not only where it saves it
+	ParkAtCreate bool
 }
 
 // Op is one step of a Program.
@@ -218,6 +221,8 @@ func Exec(p Program, c *hx.Case, mode Mode) (err error) {
 		return nil
 	}
 	in := &interp{p: p, c: c, mode: mode, fs: NewGateFS(), model: map[string][]byte{}, flushedKeys: map[string]bool{}}
+	in.fs.ParkAtCreate = p.Cfg.ParkAtCreate
+	c.LabelIf(p.Cfg.ParkAtCreate, "held-writes-park-at-file-creation")
 	in.s = &sched{resume: make(chan struct{})}
 	in.s.cond = sync.NewCond(&in.s.mu)
 	installTuner(p)
